@@ -1,6 +1,14 @@
 use std::collections::VecDeque;
+#[cfg(not(tiny_http_verif))]
 use std::sync::{Arc, Condvar, Mutex};
+#[cfg(tiny_http_verif)]
+use crate::verif_rt::sync::{Arc, Condvar, Mutex};
+#[cfg(not(tiny_http_verif))]
 use std::time::{Duration, Instant};
+#[cfg(tiny_http_verif)]
+use crate::verif_rt::time::Instant;
+#[cfg(tiny_http_verif)]
+use std::time::Duration;
 
 enum Control<T> {
     Elem(T),
